@@ -483,3 +483,44 @@ def _enclosing(fi, target):
         return False
     rec(fi.node, [])
     return out
+
+
+@rule("C15", "R9.interval-intersection", "ORDERINGS",
+      "two row / column intervals that share exactly one cell intersect: Interval.intersection reports the empty interval only when "
+      "max(lows) > min(highs) (strictly), and [max(lows), min(highs)] otherwise -- the one-cell overlap of two shifted rows is the "
+      "only legal trunk of a staircase polygon.  Decided on the paths of the normal form: the literal that compares max(lows) with "
+      "min(highs) on every path that ends in the empty / the non-empty answer", floor=1)
+def r9_interval(ctx: Ctx) -> None:
+    from framelint.peval import paths
+    from framelint.canon import K_NONE
+    f = ctx.func(STROP, "Interval.intersection")
+    c = canon_function(f, ctx.model)
+    O = ("p", 0)
+    M = ("c", ("g", "max"), (("a", O, "low"), ("a", S_, "low")), ())
+    M2 = ("c", ("g", "max"), (("a", S_, "low"), ("a", O, "low")), ())
+    m_ = ("c", ("g", "min"), (("a", O, "high"), ("a", S_, "high")), ())
+    m2 = ("c", ("g", "min"), (("a", S_, "high"), ("a", O, "high")), ())
+    ds = {(to_poly(b) - to_poly(a)).to_s() for a in (M, M2) for b in (m_, m2)}           # min(highs) - max(lows)
+    nds = {(to_poly(a) - to_poly(b)).to_s() for a in (M, M2) for b in (m_, m2)}
+    decided = 0
+    for lits, outcome in paths(c, fall=K_NONE, split_values=True):
+        empty = outcome == ("g", "EMPTY_INTERVAL") or (isinstance(outcome, tuple) and outcome[:2] == ("c", ("g", "Interval")) and outcome[2] == (k_num(-1), k_num(-1)))
+        full = isinstance(outcome, tuple) and outcome[:2] == ("c", ("g", "Interval")) and contains(outcome, ("g", "max")) and contains(outcome, ("g", "min"))
+        for lit in lits:
+            pos = not (isinstance(lit, tuple) and lit[:1] == ("not",))
+            core = lit if pos else lit[1]
+            if not (isinstance(core, tuple) and core[:1] == ("lt0",)):
+                continue
+            # d = min(highs) - max(lows); the intersection is non-empty exactly when d >= 0
+            if core[1] in ds:        # the literal is  d < 0  (positive)  /  d >= 0  (negated)
+                bad = (empty and not pos) or (full and pos)
+            elif core[1] in nds:     # the literal is  d > 0  (positive)  /  d <= 0  (negated): d == 0 must not end in the empty answer
+                bad = empty or (full and not pos)
+            else:
+                continue
+            decided += 1
+            if bad:
+                ctx.report(f.where, "one-cell-overlap-lost", "Interval.intersection calls two intervals with max(lows) == min(highs) disjoint (or keeps a reversed interval): "
+                           "rows or columns that overlap in exactly one cell have no common trunk any more, so staircase polygons are not decomposed", lineno=f.node.lineno)
+    ctx.site(f.where, "empty exactly when max(lows) > min(highs)", comparisons_decided=decided)
+    ctx.require(decided >= 1, "Interval.intersection: the comparison of max(lows) with min(highs) was not found")
